@@ -512,6 +512,20 @@ def d_alias():
     m.submodules.sub = sub
     return m, [a, o]
 
+def d_instance():
+    # instances (persistent Fragment objects, reused by every elaboration of the design) fed by late-bound clock / reset
+    # signals of an implicit and of an explicit domain, at the top and in a submodule, one under a DomainRenamer
+    m = Module()
+    m.domains.pix = ClockDomain("pix")
+    o, p, q, d = Signal(name="o"), Signal(2, name="p"), Signal(name="q"), Signal(2, name="d")
+    m.submodules.i0 = Instance("blk", i_clk=ClockSignal(), i_rst=ResetSignal(), i_d=d, o_o=o)
+    sub = Module()
+    sub.submodules.i1 = Instance("blk2", i_c=ClockSignal("pix"), i_r=ResetSignal("pix"), o_p=p)
+    sub.d.sync += d.eq(d + 1)
+    m.submodules.sub = sub
+    m.submodules.i2 = DomainRenamer("pix")(Instance("blk3", i_c=ClockSignal(), o_q=q))
+    return m, [o, p, q, ClockSignal("pix"), ResetSignal("pix")]
+
 def attrs_of(m):
     frag = Fragment.get(m, None)
     seen = []
@@ -526,7 +540,7 @@ def attrs_of(m):
     return sorted(set(seen))
 
 out = []
-for mk in (d_domains, d_names, d_mem, d_alias):
+for mk in (d_domains, d_names, d_mem, d_alias, d_instance):
     m, ports = mk()
     before = attrs_of(m) if mk is d_alias else None
     text = rtlil.convert(m, ports=ports, emit_src=False)
